@@ -191,7 +191,18 @@ def rule_chain_interpreter(ctx, p, cfg, rid="F1"):
                   fail_detail="%s can return (block %s) before any filter is consulted and without calling the sink: records are dropped by a test that is not part of the appender's filter chain (an Accept declared first never gets its say)" % (d.path, early[:3]))
         # .. and the facade entry point hands every record it is given to the node's delivery function
         ll, site = ro["log_log"], ro["node_log_site"]
-        skipped = [rb for rb in ll.return_blocks() if rb in ll.reach(0, avoid={site.block}, include_src=True)]
+        # (a return that lies only behind the refusing edge of the threshold predicate is the level test the node makes anyway, hoisted: that edge is cut)
+        pred_ = ro["enabled_pred"]
+        cuts = set()
+        for b_ in ll.blocks:
+            if b_["term"]["k"] == "switch" and b_["id"] in ll.reachable_blocks():
+                si_ = SwitchInfo(ll, b_["id"])
+                d_ = strip(si_.discr)
+                if si_.is_bool and d_[0] == "call" and d_[1] == pred_.path and any(x[0] == "call" and x[1] == ro["find"].path for x in walk(d_[2][0])):
+                    t_ = si_.target_of(False)
+                    if t_ is not None:
+                        cuts.add((b_["id"], t_))
+        skipped = sorted(q.skipping_paths(ll, 0, {site.block}, set(ll.return_blocks()), cut_edges=cuts))
         r.require(not skipped, "log-always-dispatches", fn=ll, site=site.at,
                   detail="every return of Log::log lies behind the call of %s" % site.callee,
                   fail_detail="Log::log can return (block %s) without calling %s: a record the configuration admits is dropped on a condition that is no part of the configuration (a per-thread flag, a counter, ..)" % (skipped[:3], site.callee))
